@@ -47,6 +47,14 @@ PROPS = {
                 quick=dict(runs=48, budget_s=200, min_runs=16),
                 thorough=dict(runs=1600, budget_s=1800, min_runs=200),
                 watchdog_s=400, spot=2, jaxcache=True),
+    'C15': dict(engine='fe_app_sim',
+                quick=dict(runs=48, budget_s=240, min_runs=16),
+                thorough=dict(runs=1200, budget_s=1800, min_runs=150),
+                watchdog_s=600, spot=2, jaxcache=True),
+    'C02': dict(engine='fe_app_sim',
+                quick=dict(runs=48, budget_s=240, min_runs=16),
+                thorough=dict(runs=1200, budget_s=1800, min_runs=150),
+                watchdog_s=600, spot=2, jaxcache=True),
 }
 
 
